@@ -129,6 +129,14 @@ def catalogue_shapes():
     add("holes_both_sides_of_0", lambda r: runs_to_values([(-6, -5), (-1, 1), (7, 9)]) if signed(r) else None)
     add("holes_small_for_inline", lambda r: [1, 3, 4])
 
+    # index arithmetic at the edge of the repr: runs longer than half the type's range, and more
+    # variants before a later run than the signed repr can count
+    add("holes_long_run_i8", lambda r: [-120] + list(range(-100, 51)) + [60] if r == "i8" else None, ["i8"])
+    add("holes_long_run_u8", lambda r: list(range(0, 250)) + [252] if r == "u8" else None, ["u8"])
+    add("holes_offset_gt_i8_max", lambda r: list(range(-128, 11)) + list(range(20, 31)) if r == "i8" else None, ["i8"])
+    add("holes_offset_gt_127_u8", lambda r: list(range(0, 200)) + list(range(210, 256)) if r == "u8" else None, ["u8"])
+    add("holes_long_run_i16_small_span", lambda r: [-300] + list(range(-200, 100)) + [200, 201] if r == "i16" else None, ["i16"])
+
     def big(n, runs, start):
         def f(r):
             lo, hi, _, _ = repr_bounds(r)
@@ -392,7 +400,7 @@ def render_module(name, r, variants, attr_lines, c, tags):
     A("use simcore::dynit::BoxIter;")
     A("use simcore::module::{enum_value, Module};")
     A("")
-    A("#[derive(Clone, Copy, EnumTools)]")
+    A("#[derive(Clone, Copy, PartialEq, Eq, PartialOrd, Ord, EnumTools)]")
     for l in attr_lines:
         A(l)
     A("#[repr(%s)]" % r)
@@ -421,17 +429,19 @@ def render_module(name, r, variants, attr_lines, c, tags):
     A("    enum_value(raw as i128, &DISC, %s)" % rust_str(name))
     A("}")
     A("fn cast(i: usize) -> i128 { ALL[i] as R as i128 }")
+    A("// harness side only: the variant with a given ground-truth discriminant (for closures that return items)")
+    A("fn unobs(d: i128) -> E { ALL[DISC.binary_search(&d).expect(\"harness: not a ground-truth discriminant\")] }")
     mode = c["iter"] if c["iter"] is not None else "none"
     fields = {}
     if c["iter"] is not None:
-        A("simcore::impl_dyn!(IterW, EIter, i128, obs);")
+        A("simcore::impl_dyn!(IterW, EIter, i128, obs, unobs);")
         A("fn new_iter() -> BoxIter<i128> { Box::new(IterW(E::iter())) }")
         fields["new_iter"] = "Some(new_iter)"
         if c["range"]:
             A("fn new_range(i: usize, j: usize) -> BoxIter<i128> { Box::new(IterW(E::range(ALL[i], ALL[j]))) }")
             fields["new_range"] = "Some(new_range)"
     if c["names"]:
-        A("simcore::impl_dyn!(NamesW, ENames, &'static str, |s| s);")
+        A("simcore::impl_dyn!(NamesW, ENames, &'static str, |s| s, |s| s);")
         A("fn new_names() -> BoxIter<&'static str> { Box::new(NamesW(E::names())) }")
         fields["new_names"] = "Some(new_names)"
     A("fn arg(sel: u8, v: i128) -> R { match sel { 1 => R::MIN, 2 => R::MAX, _ => v as R } }")
